@@ -1,7 +1,8 @@
 #!/bin/sh
-# tools/r9_confirm.sh <Cnn> <LETTER> : confirm /tmp/r9/out/<Cnn>/<LETTER> (mut.diff, demo/, NOTES.md) as seed <Cnn>-<LETTER>
-P=$1; L=$2
-O=/tmp/r9/out/$P/$L
+# tools/r9_confirm.sh <Cnn> <LETTER> [round dir, default /tmp/r9] : confirm <round>/out/<Cnn>/<LETTER> (mut.diff, demo/, NOTES.md) as seed <Cnn>-<LETTER>
+P=$1; L=$2; RD=${3:-/tmp/r9}
+O=$RD/out/$P/$L
 needs=$(grep -i -A3 -m1 "manifest" $O/NOTES.md | tr '\n' ' ' | cut -c1-300)
-cd /verif && python3 tools/seed_confirm.py $P-$L $P /tmp/r9/$P $O/mut.diff $O/demo --needs "$needs" > /tmp/r9/confirm/$P-$L.log 2>&1
-tail -12 /tmp/r9/confirm/$P-$L.log
+mkdir -p $RD/confirm
+cd /verif && python3 tools/seed_confirm.py $P-$L $P $RD/$P $O/mut.diff $O/demo --needs "$needs" > $RD/confirm/$P-$L.log 2>&1
+tail -12 $RD/confirm/$P-$L.log
